@@ -23,6 +23,7 @@ resolve = Fn(F, "parse_and_resolve_includes", slot="parser", ret="res", key="par
         C("every_include_is_replaced", "res is Ok ==> no_include_left(res->Ok_0.nodes@)", ["C14"]),
         C("include_stack_restored", "res is Ok ==> final(seen_filenames)@ == old(seen_filenames)@", ["C14"]),
         C("a_file_marked_once_is_read_once", "once_has(old(once_filenames), %s) ==> res is Ok && res->Ok_0.nodes@.len() == 0" % ROOT, ["C14"]),
+        C("the_set_of_once_files_only_grows", "forall|n: Seq<char>| once_has(old(once_filenames), n) ==> #[trigger] once_has(final(once_filenames), n)", ["C14"]),
     ],
     rewrites=[
         Rewrite(r"once_filenames\.contains\(root_filename\.borrow\(\)\)", "verif_once_contains(once_filenames, verif_borrow_str(&root_filename))", regex=True, count=None, rule="R8", why="HashSet<String>::contains through Borrow<str> -> prelude wrappers (uninterpreted set model)"),
@@ -42,6 +43,7 @@ resolve = Fn(F, "parse_and_resolve_includes", slot="parser", ret="res", key="par
         C("report", "report.msgs() >= old(report).msgs() && report.parents() == old(report).parents()"),
         C("stack", "seen_filenames@ == old(seen_filenames)@"),
         C("not_once", "!once_has(old(once_filenames), %s)" % ROOT),
+        C("once_grows", "forall|n: Seq<char>| once_has(old(once_filenames), n) ==> #[trigger] once_has(once_filenames, n)"),
         C("cursor", "node_index <= root_ast.nodes@.len()"),
         C("done_so_far", "forall|j: int| 0 <= j < node_index ==> !(#[trigger] root_ast.nodes@[j] is DirectiveInclude)"),
     ], decreases="root_ast.nodes@.len() - node_index")},
@@ -58,10 +60,15 @@ many = Fn(F, "parse_many_and_resolve_includes", slot="parser", ret="res", key="p
         Rewrite("result.nodes.extend(ast.nodes);", "verif_extend_nodes(&mut result.nodes, ast.nodes);", rule="R16", why="`Vec::extend(Vec)` -> prelude wrapper (appended in order)"),
         Rewrite("let mut once_filenames = std::collections::HashSet::new();", "let mut once_filenames = verif_once_new();", rule="R8", why="HashSet::new -> prelude wrapper (empty set in the uninterpreted model)"),
     ],
+    inserts=[Insert("        let ast = parse_and_resolve_includes(", "        assert(forall|n: Seq<char>| carried(n) ==> #[trigger] once_has(&once_filenames, n)); // the once set handed to this root file knows every #once file met under the earlier root files\n", where="before",
+                    why="C14 obligation: the `#once` memory is shared by all root files"),
+             Insert("            &mut once_filenames)?;\n", "        proof { carried = |n: Seq<char>| once_has(&once_filenames, n); }\n", where="after", why="ghost snapshot of the `#once` memory right after this root file")],
     loops={1: Loop(invariant=[
         C("report", "report.msgs() >= old(report).msgs()"),
         C("done_so_far", "no_include_left(result.nodes@)"),
-    ])},
+        C("once_files_of_earlier_roots_are_remembered", "forall|n: Seq<char>| carried(n) ==> #[trigger] once_has(&once_filenames, n)", ["C14"]),
+    ], before="    let ghost mut carried: spec_fn(Seq<char>) -> bool = |n: Seq<char>| false;",
+       )},
 )
 
 UNIT = Unit(
